@@ -5,6 +5,8 @@
 From Dec Require Export L3.Decimal.
 Open Scope Z_scope.
 
+Definition b2z (b : bool) : Z := if b then 1 else 0.
+
 Definition u32 (x : Z) : Z := x mod 4294967296.
 Definition i64 (x : Z) : Z := (x + 9223372036854775808) mod 18446744073709551616 - 9223372036854775808.
 Definition i32 (x : Z) : Z := (x + 2147483648) mod 4294967296 - 2147483648.
